@@ -46,6 +46,7 @@ InsertedFlags(in) == [i \in 1..Len(in.entries) |->
 Expressible(d) == [d EXCEPT !.patch = [i \in 1..Len(d.patch) |-> [d.patch[i] EXCEPT !.size = <<>>]]]
 BuildVerdict(r) ==
     IF ~Shape(r.out, {"built", "out", "back", "inserted"}) THEN "bad"
+    ELSE IF \E i \in 1..Len(r.in.entries) : ~PatchJudged(r.in.entries[i].name) THEN "ok"
     ELSE LET d == Built(r.in) IN
          IF /\ r.out.built = DIJson(d)
             /\ r.out.inserted = InsertedFlags(r.in)
@@ -65,6 +66,7 @@ RebuildDI(r) ==
 VerifyVerdict(r) ==
     IF ~Shape(r.out, {"claim_patch", "recorded", "parsed", "found", "size", "sums", "all", "entry_same", "calc_ok",
                       "last_is_patch", "len", "actual_plain", "actual_patch"}) THEN "bad"
+    ELSE IF ~PatchJudged(r.in.path[Len(r.in.path)]) \/ \E i \in 1..Len(r.in.lines) : ~PatchJudged(r.in.lines[i].name) THEN "ok"
     ELSE LET o == r.out
              d == RebuildDI(r)
              cs == r.in.path
@@ -101,10 +103,10 @@ VerifyVerdict(r) ==
                /\ o.calc_ok = "T"
                /\ AgainOK
                /\ IF i = 0
-                  THEN /\ o.found = [err |-> <<"NotFound">>] /\ o.size = <<"NotFound">>
+                  THEN /\ o.found = <<"err", <<"NotFound">>>> /\ o.size = <<"NotFound">>
                        /\ \A a \in Algs : o.sums[a] = <<"NotFound">>
                        /\ o.all = <<<<"NotFound">>>>
-                  ELSE /\ o.found = <<e.name>>
+                  ELSE /\ o.found = <<"found", e.name>>
                        /\ o.size = SizeOutcome
                        /\ \A a \in Algs : o.sums[a] = SumOutcome(a)
                        /\ o.all = [s \in 1..Len(e.sums) |-> SumOutcome(e.sums[s][1])]
